@@ -50,17 +50,19 @@ Definition classify_code (c : errcode) : category :=
   | _ => CatSyntax
   end.
 
+(* Errors of reader-level code (scanners, numbers, tokens). There is no panic
+   constructor at this level: that code has no unwrap/expect/unreachable! that
+   the model needs, so it cannot panic by construction. *)
 Inductive perr :=
 | ESyntax (c : errcode) (line col : N)
 | EIo (e : N)
-| EPanic (site : N)         (* unwrap/expect/unreachable!/arithmetic overflow in a debug build *)
 | EFuel.                    (* model artefact: fuel exhausted *)
 
 Definition classify (e : perr) : option category :=
   match e with
   | ESyntax c _ _ => Some (classify_code c)
   | EIo _ => Some CatIo
-  | _ => None
+  | EFuel => None
   end.
 
 Inductive res (A : Type) := Ok (a : A) | Err (e : perr).
@@ -126,11 +128,12 @@ Definition r_peek_position (r : reader) : N * N :=
       match rinput r with EByte b :: _ => advance (rline r) (rcol r) b | _ => (rline r, rcol r) end
   end.
 
-(* ---- parser state and monad ---- *)
+(* ---- the reader-level state monad ---- *)
+(* Everything below the nesting structure (scanners, numbers, tokens) only
+   touches the reader; the parser proper adds the nesting budget on top
+   (Parser.v). *)
 
-Record pstate := { rd : reader; depth : N }.
-
-Definition M (A : Type) := pstate -> res A * pstate.
+Definition M (A : Type) := reader -> res A * reader.
 
 Definition ret {A} (a : A) : M A := fun s => (Ok a, s).
 Definition fail {A} (e : perr) : M A := fun s => (Err e, s).
@@ -142,26 +145,17 @@ Definition bind {A B} (m : M A) (f : A -> M B) : M B :=
 Notation "x <- m ;; k" := (bind m (fun x => k)) (at level 61, m at next level, right associativity).
 Notation "m ;;; k" := (bind m (fun _ => k)) (at level 61, right associativity).
 
-Definition with_rd (s : pstate) (r : reader) : pstate := {| rd := r; depth := depth s |}.
-
-Definition peek : M (option N) :=
-  fun s => let '(o, r) := r_peek (rd s) in (o, with_rd s r).
-Definition next_char : M (option N) :=
-  fun s => let '(o, r) := r_next (rd s) in (o, with_rd s r).
-Definition eat_char : M unit :=
-  fun s => (Ok tt, with_rd s (r_discard (rd s))).
+Definition peek : M (option N) := r_peek.
+Definition next_char : M (option N) := r_next.
+Definition eat_char : M unit := fun s => (Ok tt, r_discard s).
 Definition peek_or_null : M N :=
   o <- peek ;; ret (match o with Some b => b | None => 0 end).
 
 (* Parser::error / Parser::peek_error / read::error *)
 Definition error {A} (c : errcode) : M A :=
-  fun s => let '(l, cl) := r_position (rd s) in (Err (ESyntax c l cl), s).
+  fun s => let '(l, cl) := r_position s in (Err (ESyntax c l cl), s).
 Definition peek_error {A} (c : errcode) : M A :=
-  fun s => let '(l, cl) := r_peek_position (rd s) in (Err (ESyntax c l cl), s).
-Definition position : M (N * N) := fun s => (Ok (r_position (rd s)), s).
-
-Definition get_depth : M N := fun s => (Ok (depth s), s).
-Definition set_depth (d : N) : M unit := fun s => (Ok tt, {| rd := rd s; depth := d |}).
+  fun s => let '(l, cl) := r_peek_position s in (Err (ESyntax c l cl), s).
+Definition position : M (N * N) := fun s => (Ok (r_position s), s).
 
 Definition out_of_fuel {A} : M A := fail EFuel.
-Definition panic {A} (site : N) : M A := fail (EPanic site).
